@@ -636,7 +636,8 @@ theorem visit_corner {c : DrawCfg} (hrw : RwOk c.rw) (hct : c.Walk) {d : Option 
   have hcsp : Scr.coverStart s.cells y x.toNat 0 x = p := coverStart_reach hpreach x (by omega) (by omega) _ (by omega)
   refine { inv := ?_, wd_pos := by omega, wd_eq := Or.inr ⟨by omega, by omega⟩, gc_same := hgcF, lock_same := hlkF,
            other_same := ?_, done := ?_, w_same := hS3w, h_same := hS3h, style_same := by rw [vp3.style_same, hS2d.2.2.1],
-           cursor_same := ?_, flags_same := ?_, writes := ?_, covers := ?_, vis_same := ?_ }
+           cursor_same := ?_, flags_same := ?_, writes := ?_, covers := ?_, vis_same := ?_,
+           nb := by intro h; omega }
   · refine { toSyncInv := vp3.inv.toSyncInv.congr rfl rfl rfl rfl rfl rfl rfl, kcur := fun _ => rfl,
              kpen := vp3.inv.kpen, q := ?_, dcompat := vp3.inv.dcompat }
     intro _ h2; exfalso; simp only [hS3w] at h2; omega
